@@ -48,6 +48,8 @@ pub enum Act {
     Challenge(Target, u8),
     /// response signed by the attacker's key over observed challenge #j; bool = compatible version
     ResponseM(Target, u8, bool),
+    /// ten minutes pass: both nodes run the timer that drops long-disconnected peers
+    Purge,
 }
 
 pub struct Sim {
@@ -64,6 +66,9 @@ pub struct Sim {
     /// challenges each node issued on each of its connections since that connection was established
     pub issued: BTreeMap<(u8, u64), BTreeSet<Hash>>,
     pub reconnects: u8,
+    pub purges: u8,
+    /// (node, connection) pairs that were authenticated at some point
+    pub ever_auth: BTreeSet<(u8, u64)>,
 }
 
 fn note(sim: &mut Sim, bytes: &[u8]) {
@@ -152,7 +157,7 @@ pub fn start() -> Result<Sim, String> {
     if !dial {
         return Err("C did not dial".into());
     }
-    let mut sim = Sim { s, c, to_c: VecDeque::new(), to_s: VecDeque::new(), observed: vec![], chals: vec![], used: BTreeSet::new(), cs: CS, issued: BTreeMap::new(), reconnects: 0 };
+    let mut sim = Sim { s, c, to_c: VecDeque::new(), to_s: VecDeque::new(), observed: vec![], chals: vec![], used: BTreeSet::new(), cs: CS, issued: BTreeMap::new(), reconnects: 0, purges: 0, ever_auth: BTreeSet::new() };
     // connection established at both ends; the attacker connects as well
     if !sim.c.net(NetworkEvent::PeerConnectionResult { result: Ok((SC, None)) }).is_done() {
         return Err("C connect".into());
@@ -230,6 +235,9 @@ pub fn enabled(sim: &Sim, thorough: bool) -> Vec<Act> {
     if sim.reconnects == 0 {
         v.push(Act::ReconnectCS);
     }
+    if sim.purges == 0 {
+        v.push(Act::Purge);
+    }
     let targets = [Target::SonM, Target::SonC, Target::ConS, Target::ConM];
     for t in targets {
         for k in 0..observed_canon(sim).len().min(if thorough { 8 } else { 6 }) {
@@ -243,8 +251,12 @@ pub fn enabled(sim: &Sim, thorough: bool) -> Vec<Act> {
         }
         v.push(Act::Challenge(t, 255));
     }
-    for j in sim.chals.len().saturating_sub(4)..sim.chals.len() {
-        v.push(Act::ResponseM(Target::SonM, j as u8, false));
+    // incompatible version: on both connections S accepted (the attacker's own and the one it
+    // controls the wire of)
+    for t in [Target::SonM, Target::SonC] {
+        for j in sim.chals.len().saturating_sub(if t == Target::SonM { 4 } else { 2 })..sim.chals.len() {
+            v.push(Act::ResponseM(t, j as u8, false));
+        }
     }
     v
 }
@@ -252,6 +264,7 @@ pub fn enabled(sim: &Sim, thorough: bool) -> Vec<Act> {
 pub fn apply(sim: &mut Sim, a: Act, rep: &mut Report, hist: &[Act]) -> bool {
     let ctx = json!({"history": hist.iter().map(|x| format!("{:?}", x)).collect::<Vec<_>>()});
     let (s_before, addr_before, c_before) = tables(sim);
+    let addr_c_before = sim.c.address_table();
     let (target, bytes) = match a {
         Act::DeliverToC => match sim.to_c.pop_front() {
             Some(b) => (Target::ConS, b),
@@ -263,6 +276,40 @@ pub fn apply(sim: &mut Sim, a: Act, rep: &mut Report, hist: &[Act]) -> bool {
         },
         Act::DropToC => return sim.to_c.pop_front().is_some(),
         Act::DropToS => return sim.to_s.pop_front().is_some(),
+        Act::Purge => {
+            sim.purges += 1;
+            let r1 = sim.s.tick_routing(601_000);
+            let r2 = sim.c.tick_routing(601_000);
+            if !r1.is_done() || !r2.is_done() {
+                rep.violate("handler-abort/purge-timer", format!("{} / {}", r1.label(), r2.label()), ctx.clone());
+                return true;
+            }
+            collect(sim);
+            rep.outcome("purge:done");
+            // the timer may drop what is disconnected; whoever is still connected under a key
+            // keeps the address entry it had
+            for (nid, node, addr_b) in [(0u8, &sim.s, &addr_before), (1u8, &sim.c, &addr_c_before)] {
+                let table = node.peer_table();
+                let addr = node.address_table();
+                for (k, idx) in addr_b.iter() {
+                    let still = table.iter().any(|p| p.0 == *idx && p.1 == "Connected" && p.2 == Some(*k));
+                    if still && !addr.iter().any(|(ak, ai)| ak == k && ai == idx) {
+                        // whose departure took the entry along? a connection that had authenticated
+                        // with this key itself (a second, valid session of the same key: outside
+                        // what C17 states, counted only) or one that never authenticated
+                        let before_tbl = if nid == 0 { &s_before } else { &c_before };
+                        let by_unauthenticated = before_tbl.iter().any(|p| p.2 == Some(*k) && p.0 != *idx && !table.iter().any(|q| q.0 == p.0) && !sim.ever_auth.contains(&(nid, p.0)));
+                        if by_unauthenticated {
+                            rep.violate("authenticated-peer-lost-its-address-entry", format!("node {}: connection {} stays connected under {} but the clean-up of a connection that never authenticated removed its address entry ({:?})", nid, idx, crate::seams::key_name(k), hist), ctx.clone());
+                        } else {
+                            rep.outcome("info:clean-up-of-an-older-session-of-the-same-key-removed-the-live-peers-address-entry");
+                        }
+                    }
+                }
+            }
+            final_invariants(sim, rep, hist, &ctx);
+            return true;
+        }
         Act::ReconnectCS => {
             use saito_core::core::io::network::PeerDisconnectType;
             sim.reconnects += 1;
@@ -338,6 +385,7 @@ pub fn apply(sim: &mut Sim, a: Act, rep: &mut Report, hist: &[Act]) -> bool {
                         if !sim.issued.get(&(nid, pa.0)).map(|x| x.contains(&ch)).unwrap_or(false) {
                             rep.violate("connected-over-a-challenge-not-issued-on-this-connection", format!("node {} connection {}: the accepted challenge was issued before the connection was re-established ({:?})", nid, pa.0, hist), ctx.clone());
                         }
+                        sim.ever_auth.insert((nid, pa.0));
                         if !sim.used.insert((nid, pa.0, ch)) {
                             rep.violate("challenge-accepted-twice", format!("{:?}", hist), ctx.clone());
                         }
@@ -374,19 +422,40 @@ pub fn apply(sim: &mut Sim, a: Act, rep: &mut Report, hist: &[Act]) -> bool {
             }
         }
     }
-    // whoever is found under a key is connected under that key: on both nodes, every address-map
-    // entry that leads to a connected peer leads to one that authenticated with that very key
+    final_invariants(sim, rep, hist, &ctx);
+    true
+}
+
+/// invariants of the peer tables of both nodes, after every action
+fn final_invariants(sim: &Sim, rep: &mut Report, hist: &[Act], ctx: &serde_json::Value) {
     for (nid, node) in [(0u8, &sim.s), (1u8, &sim.c)] {
         let table = node.peer_table();
-        for (k, idx) in node.address_table() {
-            if let Some(p) = table.iter().find(|p| p.0 == idx) {
-                if p.1 == "Connected" && p.2 != Some(k) {
-                    rep.violate("connected-peer-filed-under-another-key", format!("node {}: the address map leads from key {} to connection {}, which is connected under {:?} ({:?})", nid, crate::seams::key_name(&k), idx, p.2.map(|x| crate::seams::key_name(&x)), hist), ctx.clone());
+        let addr = node.address_table();
+        // whoever is found under a key is connected under that key
+        for (k, idx) in addr.iter() {
+            if let Some(p) = table.iter().find(|p| p.0 == *idx) {
+                if p.1 == "Connected" && p.2 != Some(*k) {
+                    rep.violate("connected-peer-filed-under-another-key", format!("node {}: the address map leads from key {} to connection {}, which is connected under {:?} ({:?})", nid, crate::seams::key_name(k), idx, p.2.map(|x| crate::seams::key_name(&x)), hist), ctx.clone());
                 }
             }
         }
+        for p in table.iter() {
+            // (a peer that authenticates validly on a second connection under a key already in
+            // use replaces the first; that the address entry is not re-created for it then is
+            // outside what C17 states and is only counted)
+            if p.1 == "Connected" {
+                if let Some(k) = p.2 {
+                    if !addr.iter().any(|(ak, _)| *ak == k) {
+                        rep.outcome("info:connected-peer-without-address-entry(after-valid-re-authentication)");
+                    }
+                }
+            }
+            // a connection that never authenticated carries no key
+            if p.2.is_some() && !sim.ever_auth.contains(&(nid, p.0)) {
+                rep.violate("unauthenticated-connection-carries-a-key", format!("node {}: connection {} ({}) never completed a handshake, yet it is filed with key {} ({:?})", nid, p.0, p.1, crate::seams::key_name(&p.2.unwrap()), hist), ctx.clone());
+            }
+        }
     }
-    true
 }
 
 /// what a wire message means, with challenges renamed by order of observation
@@ -437,7 +506,7 @@ pub fn digest(sim: &Sim) -> Hash {
         (*n, *c, v)
     }).collect();
     issued.sort();
-    saito_core::core::util::crypto::hash(format!("{:?}|{:?}|{:?}|{:?}|{:?}|{:?}|{:?}|{}|{}|{:?}", st, ct, at, q1, q2, ob, used, sim.cs, sim.reconnects, issued).as_bytes())
+    saito_core::core::util::crypto::hash(format!("{:?}|{:?}|{:?}|{:?}|{:?}|{:?}|{:?}|{}|{}|{:?}|{}|{:?}", st, ct, at, q1, q2, ob, used, sim.cs, sim.reconnects, issued, sim.purges, sim.ever_auth).as_bytes())
 }
 
 fn replay(hist: &[Act], rep: &mut Report) -> Option<Sim> {
